@@ -238,19 +238,22 @@ def c03_8(rep, ix, M, cc, branches):
     te = TermEval(single_accessors(cc, "ArrayIdxLabel"), ctxvar=arg)
     paths = [p for p in te.paths(br.body, {}) if p[1] not in ("RAISE",)]
     site = ix.site(f, br)
-    if len(paths) != 1:
-        raise Inconclusive("ArrayIdxLabel branch has %d value paths" % len(paths))
-    t = paths[0][1]
-    ok = False
-    detail = show(t)
-    if isinstance(t, tuple) and t[0] == "index" and t[2] == E0:
-        b = t[1]
-        if isinstance(b, tuple) and b[0] == "method" and b[2] in ("flatten", "ravel") and not b[3] and all(k == "order" and v in ("'C'", '"C"') for k, v in b[4]):
-            src = b[1]
-            ok = isinstance(src, tuple) and src[0] == "index" and src[1] == ("name", "_VAR")
-            key = src[2] if ok else None
-            ok = ok and show(key) in ("method(attr?)",) or ok
-    rep.check(ok, R, site, "#ArrayIdxLabel returns _VAR[<name>].flatten()[E(child0)] with C (row-major) order", "returns %s" % detail, key="index")
+    if not paths:
+        raise Inconclusive("ArrayIdxLabel branch has no value path")
+    for n_, (conds, t, env) in enumerate(paths):
+        ok = False
+        if isinstance(t, tuple) and t[0] == "index" and t[2] == E0:
+            b = t[1]
+            if isinstance(b, tuple) and b[0] == "method" and b[2] in ("flatten", "ravel") and not b[3] and all(k == "order" and v in ("'C'", '"C"') for k, v in b[4]):
+                src = b[1]
+                ok = isinstance(src, tuple) and src[0] == "index" and src[1] == ("name", "_VAR")
+        text = "#ArrayIdxLabel returns _VAR[<name>].flatten()[E(child0)] with C (row-major) order (the variable table's current entry) on every path"
+        if ok:
+            rep.ok(R, site, text)
+        elif definite(t):
+            rep.bad(R, site, text, "a path returns %s" % show(t), key="index|%d" % n_)
+        else:
+            rep.unknown(R, site, text, "returns %s" % show(t))
 
 
 # ------------------------------------------------------------------------------------------- C03.4 function table
@@ -277,8 +280,10 @@ def c03_4(rep, ix, M):
     e = ix.func(EVAL)
     calls = [c for c in walk_shallow(e.node) if isinstance(c, ast.Call) and u(c.func) == "_func"]
     arg = e.params[0]
-    rep.check(len(calls) == 1 and [u(a) for a in calls[0].args] == ["%s.function()" % arg, "%s.expression()" % arg], R, ix.site(e, calls[0]) if calls else ix.site(e),
-              "#FunctionLabel evaluates _func(expr.function(), expr.expression())", key="func|callsite")
+    rets = [s_ for s_ in walk_shallow(e.node) if isinstance(s_, ast.Return) and s_.value is not None and any(x is c for c in calls for x in ast.walk(s_.value))]
+    direct = len(calls) == 1 and len(rets) == 1 and rets[0].value is calls[0]
+    rep.check(direct and [u(a) for a in calls[0].args] == ["%s.function()" % arg, "%s.expression()" % arg], R, ix.site(e, calls[0]) if calls else ix.site(e),
+              "#FunctionLabel returns _func(expr.function(), expr.expression()) unmodified", "returns `%s`" % (u(rets[0].value) if rets else None), key="func|callsite")
 
 
 # ------------------------------------------------------------------------------------------- C03.5 literals
@@ -302,6 +307,8 @@ def c03_5(rep, ix, M):
     e = ix.func(EVAL)
     arg = e.params[0]
     calls = [c for c in walk_shallow(e.node) if isinstance(c, ast.Call) and u(c.func) == "_number"]
-    rep.check(len(calls) == 1 and [u(a) for a in calls[0].args] == ["%s.number()" % arg], R, ix.site(e), "#NumberLabel evaluates _number(expr.number())", key="num|callsite")
+    rets = [s_ for s_ in walk_shallow(e.node) if isinstance(s_, ast.Return) and s_.value is not None and any(x is c for c in calls for x in ast.walk(s_.value))]
+    rep.check(len(calls) == 1 and len(rets) == 1 and rets[0].value is calls[0] and [u(a) for a in calls[0].args] == ["%s.number()" % arg], R, ix.site(e),
+              "#NumberLabel returns _number(expr.number()) unmodified", key="num|callsite")
     # the PI token's literal is 'pi'
     rep.check(G.literal_of("PI") == "pi", R, "blackbird.g4 PI", "the PI token is the literal 'pi'")
